@@ -95,44 +95,52 @@ strictly increase within a unit and units do not overlap. -/
 
 /-- `x` is the offset of a DIE the filter has read -/
 def IsEntry (recs : List Rec) (x : Off) : Prop := ∃ r, r ∈ recs ∧ r.off = x
-/-- the user asked for `x` -/
-def Required (recs : List Rec) (x : Off) : Prop := ∃ r, r ∈ recs ∧ r.off = x ∧ r.e.required = true
+/-- `x` must be kept whatever else is: the user asked for it, or the root DIE of a unit (which is
+always converted) references it (`roots` = `rootReqs units rootAttrs`, fix f623d29) -/
+def Required (recs : List Rec) (roots : List Off) (x : Off) : Prop :=
+  (∃ r, r ∈ recs ∧ r.off = x ∧ r.e.required = true) ∨ x ∈ roots
 /-- the property's relations: `x` keeps `y` if `y` is referenced by `x` (attribute, any expression
 operation incl. nested ones, any location-list entry), is the parent of `x`, or is a member-like child
 of the non-namespace entry `x` -/
 def Dep (recs : List Rec) (x y : Off) : Prop := DepOwn recs x y ∨ DepChild recs x y
 
 /-- the Spec closure over the abstract relations -/
-def Closure (recs : List Rec) : Off → Prop := Reach (IsEntry recs) (Dep recs) (Required recs)
+def Closure (recs : List Rec) (roots : List Off) : Off → Prop :=
+  Reach (IsEntry recs) (Dep recs) (Required recs roots)
 
 /-- the graph stored in `FilterDependencies` denotes exactly the abstract relations -/
-theorem reachable_iff_closure (m : Mode) (units : List (UnitHdr × List Entry)) (d : Deps)
-    (hb : buildDeps m units = .ok d) (hd : Distinct units) (x : Off) :
-    d.Reachable x ↔ Closure (records units) x := by
-  have G := buildDeps_graph m units d hb hd
+theorem reachable_iff_closure (m : Mode) (units : List (UnitHdr × List Entry)) (ras : List (List AttrRef))
+    (d : Deps) (hb : buildDeps m units ras = .ok d) (hd : Distinct units) (x : Off) :
+    d.Reachable x ↔ Closure (records units) (rootReqs units ras) x := by
+  obtain ⟨d0, hb0, he, hq⟩ := buildDeps_roots m units ras d hb
+  have G := buildDeps_graph m units d0 hb0 hd
+  have hreq : ∀ y, y ∈ d.required ↔ Required (records units) (rootReqs units ras) y := by
+    intro y; rw [hq y, G.req y]; rfl
+  simp only [Deps.Reachable, he]
   constructor
   · intro h
     induction h with
-    | req hr hv => exact .req ((G.req _).1 hr) ((G.keys _).1 hv)
+    | req hr hv => exact .req ((hreq _).1 hr) ((G.keys _).1 hv)
     | step _ he hv ih =>
       obtain ⟨l, hl, hy⟩ := he
       exact .step ih ((G.edges _ l hl _).1 hy) ((G.keys _).1 hv)
   · intro h
     induction h with
-    | req hr hv => exact .req ((G.req _).2 hr) ((G.keys _).2 hv)
+    | req hr hv => exact .req ((hreq _).2 hr) ((G.keys _).2 hv)
     | step hx he hv ih =>
-      have hvx : d.edges.Valid _ := ih.valid'
+      have hvx : d0.edges.Valid _ := ih.valid'
       obtain ⟨l, hl⟩ := (EdgeMap.contains_iff _ _).1 hvx
       exact .step ih ⟨l, hl, (G.edges _ l hl _).2 he⟩ ((G.keys _).2 hv)
 
 /-- **`closure_exact`** — the offsets reserved by the filter are exactly the least set that
-contains the required entries and is closed under "parent of", "referenced by" and "member-like child of a non-namespace entry": nothing is missing and nothing that
+contains the required entries and the DIEs referenced by a unit root DIE, and is closed under "parent of", "referenced by" and "member-like child of a non-namespace entry": nothing is missing and nothing that
 is not connected to a required entry by such a chain is kept. For ALL forests, reference graphs
 and required sets. -/
-theorem closure_exact (m : Mode) (units : List (UnitHdr × List Entry)) (d : Deps) (out : List Off)
-    (hb : buildDeps m units = .ok d) (hr : getReachable d = .ok out) (hd : Distinct units) (x : Off) :
-    x ∈ out ↔ Closure (records units) x := by
-  rw [← reachable_iff_closure m units d hb hd]
+theorem closure_exact (m : Mode) (units : List (UnitHdr × List Entry)) (ras : List (List AttrRef))
+    (d : Deps) (out : List Off)
+    (hb : buildDeps m units ras = .ok d) (hr : getReachable d = .ok out) (hd : Distinct units) (x : Off) :
+    x ∈ out ↔ Closure (records units) (rootReqs units ras) x := by
+  rw [← reachable_iff_closure m units ras d hb hd]
   exact ⟨reachable_sound d out hr x, reachable_complete d out hr x⟩
 
 /-- **`closure_props`** — the clauses of the property, for every record `r` of the section:
@@ -143,19 +151,23 @@ theorem closure_exact (m : Mode) (units : List (UnitHdr × List Entry)) (d : Dep
    location-list entry) whose target is a DIE is kept;
 4. every member-like child (`has_die_back_edge`) of a kept entry whose tag is not
    `DW_TAG_namespace` is kept;
-5. everything kept is in the closure of the required entries (nothing unconnected). -/
-theorem closure_props (m : Mode) (units : List (UnitHdr × List Entry)) (d : Deps) (out : List Off)
-    (hb : buildDeps m units = .ok d) (hr : getReachable d = .ok out) (hd : Distinct units) :
+5. everything kept is in the closure of the required entries and root references (nothing
+   unconnected);
+6. every DIE referenced by a unit root DIE (which is always converted) is kept (fix f623d29). -/
+theorem closure_props (m : Mode) (units : List (UnitHdr × List Entry)) (ras : List (List AttrRef))
+    (d : Deps) (out : List Off)
+    (hb : buildDeps m units ras = .ok d) (hr : getReachable d = .ok out) (hd : Distinct units) :
     (∀ r, r ∈ records units → r.e.required = true → r.off ∈ out) ∧
     (∀ r, r ∈ records units → r.off ∈ out → ∀ po, r.parentOff = some po → po ∈ out) ∧
     (∀ r, r ∈ records units → r.off ∈ out → ∀ t, t ∈ r.refDeps → IsEntry (records units) t → t ∈ out) ∧
     (∀ r c, r ∈ records units → c ∈ records units → r.off ∈ out →
         c.parentOff = some r.off → c.backEdge = true → c.off ∈ out) ∧
-    (∀ x, x ∈ out → Closure (records units) x) := by
-  have E := closure_exact m units d out hb hr hd
-  refine ⟨?_, ?_, ?_, ?_, fun x hx => (E x).1 hx⟩
+    (∀ x, x ∈ out → Closure (records units) (rootReqs units ras) x) ∧
+    (∀ t, t ∈ rootReqs units ras → IsEntry (records units) t → t ∈ out) := by
+  have E := closure_exact m units ras d out hb hr hd
+  refine ⟨?_, ?_, ?_, ?_, fun x hx => (E x).1 hx, fun t ht hv => (E _).2 (.req (Or.inr ht) hv)⟩
   · intro r hr' hq
-    exact (E _).2 (.req ⟨r, hr', rfl, hq⟩ ⟨r, hr', rfl⟩)
+    exact (E _).2 (.req (Or.inl ⟨r, hr', rfl, hq⟩) ⟨r, hr', rfl⟩)
   · intro r hr' hk po hp
     have hpar : ∃ p, r.parent = some p ∧ po = r.unit.base + p.off := by
       simp only [Rec.parentOff] at hp
@@ -186,101 +198,50 @@ def allIds (units : List (UnitHdr × List Entry)) : List Off :=
 def keptIds (units : List (UnitHdr × List Entry)) (out : List Off) : List Off :=
   units.map (·.1.rootOff) ++ out
 
-/-- **`no_dangling_partial`** — for a kept entry, an attribute that the unfiltered conversion can
-convert (all its references resolve in the full `entry_ids`) is converted by the filtered
-conversion too: every reference to a DIE — from the attribute itself, from any operation of its
-expression (`DW_OP_implicit_pointer`, `DW_OP_GNU_variable_value` and operations nested in
-`DW_OP_entry_value`s included: up to `MAX_ENTRY_VALUE_DEPTH` = 64 levels they are recorded, and a
-deeper one makes the unfiltered conversion fail with `UnsupportedOperation`, so the hypothesis
-excludes it) or from any entry of its location list (entries the cooked iterator
-skips included) — targets a kept DIE, so `convert_unit_ref` / `convert_debug_info_ref` never fail
-for a missing entry and `write()` never meets a reserved but unwritten id.
-FULL STRENGTH for every entry other than the unit root: since the fixes 6341b4d / 34014b9 (former
-findings C19-1, C19-2) no hypothesis on the kind of reference is needed
-(`implicit_pointer_regression`, `skipped_loc_regression`). PARTIAL with respect to the property
-clause only because the records range over the DIEs the filter reads: the attributes of the unit
-root DIE, which `FilterUnit::new` skips, are not covered and the statement is false for them
-(recorded finding C19-3: `root_ref_counterexample`). -/
-theorem no_dangling_partial (m : Mode) (units : List (UnitHdr × List Entry)) (d : Deps) (out : List Off)
-    (hb : buildDeps m units = .ok d) (hr : getReachable d = .ok out) (hd : Distinct units)
-    (r : Rec) (hrec : r ∈ records units) (hk : r.off ∈ out)
-    (a : AttrRef) (ha : a ∈ r.e.attrs)
-    (hfull : convAttr (allIds units) r.unit a = none) :
-    convAttr (keptIds units out) r.unit a = none := by
-  obtain ⟨_, _, C3, _, _⟩ := closure_props m units d out hb hr hd
-  -- a target that resolves in the full table and was recorded resolves in the kept table
-  have keep : ∀ t, t ∈ attrDeps r.unit a → t ∈ allIds units → t ∈ keptIds units out := by
-    intro t ht hall
+/-- **`no_dangling`** — for EVERY DIE of the output, the unit roots included: an attribute that the
+unfiltered conversion can convert (all its references resolve in the full `entry_ids`) is converted
+by the filtered conversion too. Every reference to a DIE — from the attribute itself, from any
+operation of its expression (`DW_OP_implicit_pointer`, `DW_OP_GNU_variable_value` and operations
+nested in `DW_OP_entry_value`s included: up to `MAX_ENTRY_VALUE_DEPTH` = 64 levels they are
+recorded, and a deeper one makes the unfiltered conversion fail with `UnsupportedOperation`, so the
+hypothesis excludes it) or from any entry of its location list (entries the cooked iterator skips
+included) — targets a kept DIE, so `convert_unit_ref` / `convert_debug_info_ref` never fail for a
+missing entry and `write()` never meets a reserved but unwritten id.
+First part: the attributes of a kept entry. Second part: the attributes of the root DIE of the
+`i`-th unit (always converted; its references are required since fix f623d29). FULL STRENGTH: no
+hypothesis on the kind of reference (former findings C19-1, C19-2, C19-3 are repaired:
+`implicit_pointer_regression`, `skipped_loc_regression`, `root_ref_regression`). -/
+theorem no_dangling (m : Mode) (units : List (UnitHdr × List Entry)) (ras : List (List AttrRef))
+    (d : Deps) (out : List Off)
+    (hb : buildDeps m units ras = .ok d) (hr : getReachable d = .ok out) (hd : Distinct units) :
+    (∀ (r : Rec), r ∈ records units → r.off ∈ out → ∀ a, a ∈ r.e.attrs →
+      convAttr (allIds units) r.unit a = none → convAttr (keptIds units out) r.unit a = none) ∧
+    (∀ (i : Nat) (ue : UnitHdr × List Entry) (ra : List AttrRef), units[i]? = some ue → ras[i]? = some ra →
+      ∀ a, a ∈ ra →
+      convAttr (allIds units) ue.1 a = none → convAttr (keptIds units out) ue.1 a = none) := by
+  obtain ⟨_, _, C3, _, _, C6⟩ := closure_props m units ras d out hb hr hd
+  -- a recorded target that resolves in the full table resolves in the kept table
+  have keep : ∀ t, (IsEntry (records units) t → t ∈ out) → t ∈ allIds units → t ∈ keptIds units out := by
+    intro t hk hall
     simp only [allIds, keptIds, List.mem_append] at hall ⊢
     rcases hall with h1 | h1
     · exact Or.inl h1
     · right
       simp only [List.mem_map] at h1
       obtain ⟨r', hr', ho⟩ := h1
-      exact C3 r hrec hk t (List.mem_flatMap.2 ⟨a, ha, ht⟩) ⟨r', hr', ho⟩
-  have hu : ∀ val, (∀ t, t ∈ (if r.unit.inBounds val then [r.unit.base + val] else []) → t ∈ attrDeps r.unit a) →
-      convUnitRef (allIds units) r.unit val = none → convUnitRef (keptIds units out) r.unit val = none := by
-    intro val hsub h
-    rw [convUnitRef_none] at h ⊢
-    exact ⟨h.1, keep _ (hsub _ (by simp [h.1])) h.2⟩
-  have hi : ∀ val, val ∈ attrDeps r.unit a →
-      convInfoRef (allIds units) val = none → convInfoRef (keptIds units out) val = none := by
-    intro val hsub h
-    rw [convInfoRef_none] at h ⊢
-    exact keep _ hsub h
-  have hop : ∀ (ops : List OpRef),
-      (∀ o, o ∈ ops → ∀ t, t ∈ opDeps r.unit o → t ∈ attrDeps r.unit a) →
-      firstErr (ops.map (convOp (allIds units) r.unit)) = none →
-      firstErr (ops.map (convOp (keptIds units out) r.unit)) = none := by
-    intro ops hsub h
-    rw [firstErr_none] at h ⊢
-    intro x hx
-    simp only [List.mem_map] at hx
-    obtain ⟨o, ho, hx⟩ := hx
-    have h1 := h (convOp (allIds units) r.unit o) (List.mem_map.2 ⟨o, ho, rfl⟩)
-    subst hx
-    cases o with
-    | unitRef val => exact hu val (fun t ht => hsub _ ho t (by simpa [opDeps] using ht)) h1
-    | infoRef val => exact hi val (hsub _ ho val (by simp [opDeps])) h1
-    | implicitRef val => exact hi val (hsub _ ho val (by simp [opDeps])) h1
-    | nestedUnitRef k val =>
-      -- a reference nested deeper than the bound makes the unfiltered conversion fail
-      simp only [convOp] at h1 ⊢
-      by_cases hk : scansDepth k = true
-      · simp only [hk, if_true] at h1 ⊢
-        exact hu val (fun t ht => hsub _ ho t (by
-          simp only [opDeps, hk, Bool.true_and]; exact ht)) h1
-      · simp [hk] at h1
-    | nestedInfoRef k val =>
-      simp only [convOp] at h1 ⊢
-      by_cases hk : scansDepth k = true
-      · simp only [hk, if_true] at h1 ⊢
-        exact hi val (hsub _ ho val (by simp [opDeps, hk])) h1
-      · simp [hk] at h1
-    | nestedPlain k => exact h1
-  cases a with
-  | unitRef val => exact hu val (fun t ht => by simpa [attrDeps] using ht) hfull
-  | infoRef val => exact hi val (by simp [attrDeps]) hfull
-  | expr ops =>
-    simp only [convAttr] at hfull ⊢
-    exact hop ops (fun o ho t ht => by
-      simp only [attrDeps]; exact List.mem_flatMap.2 ⟨o, ho, ht⟩) hfull
-  | loclist locs =>
-    simp only [convAttr] at hfull ⊢
-    rw [firstErr_none] at hfull ⊢
-    intro x hx
-    simp only [List.mem_map] at hx
-    obtain ⟨l, hl, hx⟩ := hx
-    subst hx
-    refine hop l.2 ?_ (hfull _ (List.mem_map.2 ⟨l, hl, rfl⟩))
-    intro o ho t ht
-    simp only [attrDeps]
-    exact List.mem_flatMap.2 ⟨l, hl, List.mem_flatMap.2 ⟨o, ho, ht⟩⟩
+      exact hk ⟨r', hr', ho⟩
+  constructor
+  · intro r hrec hk a ha hfull
+    exact convAttr_keep _ _ r.unit a
+      (fun t ht => keep t (C3 r hrec hk t (List.mem_flatMap.2 ⟨a, ha, ht⟩))) hfull
+  · intro i ue ra hu hra a ha hfull
+    exact convAttr_keep _ _ ue.1 a
+      (fun t ht => keep t (C6 t (mem_rootReqs units ras i ue ra hu hra a ha t ht))) hfull
 
 /-- **`conversion_monotone`** — reference resolution is monotone in `entry_ids`: an attribute that
 the filtered conversion (fewer ids) converts is converted by the unfiltered one as well, so
 filtering can only turn a convertible attribute into a `ConvertError`, never the reverse; together
-with `no_dangling_partial` the two conversions agree on every attribute of a kept (non-root) entry. -/
+with `no_dangling` the two conversions agree on every attribute of every output DIE. -/
 theorem conversion_monotone (ids ids' : List Off) (hsub : ∀ x, x ∈ ids → x ∈ ids') (u : UnitHdr)
     (a : AttrRef) (h : convAttr ids u a = none) : convAttr ids' u a = none := by
   have hu : ∀ val, convUnitRef ids u val = none → convUnitRef ids' u val = none := by
@@ -368,20 +329,21 @@ modes, the filter pass returns a graph (`add_edge`'s `unwrap` and `add_entry`'s 
 never fire), `get_reachable` returns exactly the closure, `new_with_filter` reserves exactly the
 closure offsets of each unit with nothing left over (`debug_assert_eq!(end, offsets.len())` holds),
 and the outcome of the Model's `run` is the conversion of exactly those entries: `converted` or a
-`ConvertError` from `convert_unit_ref`/`convert_debug_info_ref`, never a panic or fuel exhaustion. -/
+`ConvertError` from `convert_unit_ref`/`convert_debug_info_ref`, never a panic or fuel exhaustion.
+`ras` are the reference attributes of the unit root DIEs. -/
 theorem pipeline_total (m : Mode) (units : List (UnitHdr × List Entry)) (ras : List (List AttrRef))
     (wf : WellFormed units) :
-    ∃ d out, buildDeps m units = .ok d ∧ getReachable d = .ok out ∧
-      (∀ x, x ∈ out ↔ Closure (records units) x) ∧
+    ∃ d out, buildDeps m units ras = .ok d ∧ getReachable d = .ok out ∧
+      (∀ x, x ∈ out ↔ Closure (records units) (rootReqs units ras) x) ∧
       reserve m (units.map (·.1)) out = .ok ((units.map (·.1)).map (fun u => out.filter u.containsOff)) ∧
       run m units ras =
         (match convertUnits (units.map (·.1.rootOff) ++
             ((units.map (·.1)).map (fun u => out.filter u.containsOff)).flatten) units ras with
          | .ok us => .converted ((units.map (·.1)).map (fun u => out.filter u.containsOff)) us
          | .error e => .convErr e) := by
-  obtain ⟨d, hb⟩ := buildDeps_total m units wf.distinct
+  obtain ⟨d, hb⟩ := buildDeps_total_roots m units ras wf.distinct
   obtain ⟨⟨out, hr⟩, _⟩ := worklist_terminates d
-  have hE := closure_exact m units d out hb hr wf.distinct
+  have hE := closure_exact m units ras d out hb hr wf.distinct
   have hcover : ∀ o, o ∈ out → ∃ u, u ∈ units.map (·.1) ∧ u.containsOff o = true := by
     intro o ho
     obtain ⟨r, hrec, hoff⟩ := ((hE o).1 ho).valid'
@@ -400,14 +362,15 @@ by unit, conversion with skipping) on a well-formed section whose entries lie be
 never share an offset with a unit root: the outcome is never a panic or fuel exhaustion; it is
 either a `ConvertError` raised by reference resolution, or `converted parts us` where
 `parts` are exactly the closure offsets of each unit (the least set containing the required entries
-and closed under parent / reference / member-like child of a non-namespace entry, sorted) and `us`
+and the DIEs referenced by unit roots, closed under parent / reference / member-like child of a non-namespace entry, sorted) and `us`
 lists, per unit, exactly those entries in read order, each with the parent it has in the input
 (the unit root for top-level entries). For ALL forests, reference graphs, required sets, modes. -/
 theorem run_correct (m : Mode) (units : List (UnitHdr × List Entry)) (ras : List (List AttrRef))
     (wf : WellFormed units)
     (hdepth : ∀ ue, ue ∈ units → ∀ e, e ∈ ue.2 → 0 < e.depth)
     (hroot : ∀ r, r ∈ records units → ∀ ue, ue ∈ units → r.off ≠ ue.1.rootOff) :
-    ∃ out : List Off, (∀ x, x ∈ out ↔ Closure (records units) x) ∧ out.Pairwise (· < ·) ∧
+    ∃ out : List Off, (∀ x, x ∈ out ↔ Closure (records units) (rootReqs units ras) x) ∧
+      out.Pairwise (· < ·) ∧
       ((∃ e, run m units ras = .convErr e) ∨
        run m units ras =
         .converted ((units.map (·.1)).map (fun u => out.filter u.containsOff))
@@ -445,7 +408,7 @@ theorem run_correct (m : Mode) (units : List (UnitHdr × List Entry)) (ras : Lis
       · intro hx
         obtain ⟨u, hu, hc⟩ := hcover x hx
         exact ⟨_, List.mem_map.2 ⟨u, hu, rfl⟩, List.mem_filter.2 ⟨hx, hc⟩⟩
-    obtain ⟨_, C2, _, _, _⟩ := closure_props m units d out hb hr wf.distinct
+    obtain ⟨_, C2, _, _, _, _⟩ := closure_props m units ras d out hb hr wf.distinct
     intro ue hue
     refine ⟨hdepth ue hue, ?_⟩
     intro ep hep hin p hp
@@ -644,16 +607,20 @@ theorem entry_value_nesting_regression :
     run .debug exDeepNesting = .convErr .unsupportedOperation ∧
     (convertUnits (allIds exDeepNesting) exDeepNesting []).toBool = false := by decide
 
-/-- recorded finding C19-3 (open): the unit root DIE (always converted) references the DIE `15`, which
-nothing else keeps: `FilterUnit::new` skips the root's attributes, so no edge is recorded, and the
-conversion of the root fails although the unfiltered conversion succeeds -/
+/-- former finding C19-3 (repaired by f623d29): the unit root DIE (always converted) references the
+DIE `15`, which nothing else keeps -/
 def exRootRef : List (UnitHdr × List Entry) :=
   [ (⟨0, 11, 20⟩,
       [ ⟨15, 1, false, 0x24, false, [], false⟩,
         ⟨23, 1, false, 0x34, false, [], true⟩ ]) ]
 
-theorem root_ref_counterexample :
-    run .debug exRootRef [[.unitRef 15]] = .convErr .invalidUnitRef ∧
-    (convertUnits (allIds exRootRef) exRootRef [[.unitRef 15]]).toBool = true := by decide
+/-- **`root_ref_regression`** — `FilterUnit::new` now requires what the root references: `15` is
+reserved and the filtered conversion succeeds (it used to end in `InvalidUnitRef` on the root);
+without the root attribute `15` is still dropped -/
+theorem root_ref_regression :
+    run .debug exRootRef [[.unitRef 15]] = .converted [[15, 23]] [[(15, some 11), (23, some 11)]] ∧
+    run .debug exRootRef [] = .converted [[23]] [[(23, some 11)]] := by decide
+
+example : rootReqs exRootRef [[.unitRef 15, .infoRef 999]] = [15, 999] := by decide
 
 end Gimli.Props.C19
